@@ -92,7 +92,7 @@ From(reg, id, o) ==
   ELSE IF o = reg[id].b THEN "parent" ELSE "ancestor"
 
 \* ---- operations ---------------------------------------------------------------
-Mutators  == {"AddStyle", "RemoveStyle", "Create", "Load"}
+Mutators  == {"AddStyle", "RemoveStyle", "Create", "Load", "Edit"}
 Resolvers == {"Resolve", "ToXML", "MutRes"}       \* walk the basedOn chain
 Readers   == Resolvers \cup {"Info", "List", "CloneDrop"}  \* must leave the registry as it is
 CloneOps  == {"CloneSwap", "CloneDrop"}
@@ -104,6 +104,7 @@ Api(op) ==
     [] op.op = "ToXML"   -> "ApplyStyleToXML"
     [] op.op = "Info"    -> "GetStyleInfo"
     [] op.op = "Create"  -> "CreateCustomStyle"
+    [] op.op = "Edit"    -> "GetStyle+edit-in-place"
     [] op.op = "MutRes"  -> "GetStyleWithInheritance+mutate"
     [] op.op = "List"    -> "GetAllStyles/ByType/Heading/Info-lists"
     [] op.op = "CloneSwap" -> "Clone"
@@ -115,6 +116,12 @@ Apply(st, op) ==
     [] op.op = "RemoveStyle" -> [st EXCEPT !.reg = Del(st.reg, op.s)]
     [] op.op = "Create"      -> [st EXCEPT !.reg = Put(st.reg, op.s, Def(op.b, FALSE, FALSE))]
     [] op.op = "Load"        -> [st EXCEPT !.reg = PutAll(EmptyReg, op.defs, 1)]
+    \* the registered object itself (the pointer GetStyle / CreateCustomStyle hand out) is edited in place:
+    \* elements are added to the style (x, y) and its basedOn is re-pointed (b) or kept (b = "keep")
+    [] op.op = "Edit"        -> IF op.s \notin DOMAIN st.reg THEN st
+                                ELSE [st EXCEPT !.reg = Put(st.reg, op.s,
+                                        Def(IF op.b = "keep" THEN st.reg[op.s].b ELSE op.b,
+                                            st.reg[op.s].x \/ op.x, st.reg[op.s].y \/ op.y))]
     [] OTHER                 -> st    \* readers; CloneSwap continues on an equal copy
 
 Ret(st, op) ==
